@@ -219,7 +219,7 @@ fn only_own_lines(written: &[u8], own: &[(&'static str, Vec<u8>)]) -> Result<usi
     Ok(n)
 }
 
-fn main() {
+pub fn main() {
     let mut ck = Check::new("C35", "exploration");
     ck.rule("Contexts with each of protocol/host/username/password (UTF-8) and path/url (bytes) unset (25 %) or drawn from value classes: plain tokens, '=' inside/leading/trailing, leading/trailing blanks, empty, CR embedded/trailing/alone, multi-byte UTF-8 incl. U+0085/U+2028, non-UTF-8 bytes (path/url), LF, NUL, and injection payloads `<LF|CR|CRLF|NUL>key=value` for real attribute names; quit set at random. Half the contexts are free of LF/NUL by construction. Non-trivial: some value contains '=', CR, LF or NUL. Distinct by the context value.");
     ck.assume("a helper reads the message as LF-terminated `key=value` lines (git-credential(1)); `quit` is a helper-to-git attribute that write_to never sends, so it is excluded from the field comparison (the decoded message must not contain it)");
